@@ -70,6 +70,14 @@ func c09Program(rng *rand.Rand) string {
 		func() { k := rng.Intn(1000); w("sx%[1]d := mixa[:]\nsy%[1]d := sx%[1]d[0].([]num)\nsy%[1]d[0] = %[2]d\nprint mixa sx%[1]d", k, rng.Intn(9)) },
 		func() { k := rng.Intn(1000); w("sz%[1]d := mixm[-1:]\nsz%[1]d[0].name = \"z\"\nprint mixm sz%[1]d", k) },
 	)
+	// the loop variable of `for e := range arr` is a COPY of a basic element: a store into that element (through the
+	// array, an alias or any-boxed) inside the same iteration must not show through e
+	ops = append(ops,
+		func() { k := rng.Intn(1000); w("li%[1]d := 0\nfor e := range an\n    an[li%[1]d] = e + 50\n    x1 = e\n    print \"lv\" e an[li%[1]d]\n    li%[1]d = li%[1]d + 1\nend", k) },
+		func() { k := rng.Intn(1000); w("lj%[1]d := 0\nfor e := range as\n    as[lj%[1]d] = e + \"!\"\n    s1 = e\n    print \"lv\" e\n    lj%[1]d = lj%[1]d + 1\nend", k) },
+		func() { k := rng.Intn(1000); w("la%[1]d := [1 \"two\" true]\nlk%[1]d := 0\nfor e := range la%[1]d\n    la%[1]d[lk%[1]d] = \"changed\"\n    print \"lv\" e la%[1]d\n    lk%[1]d = lk%[1]d + 1\nend", k) },
+		func() { k := rng.Intn(1000); w("for k%[1]d := range mn\n    t%[1]d := mn[k%[1]d]\n    mn[k%[1]d] = t%[1]d + 7\n    print \"lm\" k%[1]d t%[1]d mn\nend", k) },
+	)
 	// fresh aliases created by declaration in the middle
 	nd := 0
 	decl := []func(){
